@@ -166,6 +166,8 @@ def run_stage_values(item):
         m = build(dict(stages=stages, coupling=[('cont', i, i + 1) for i in range(len(stages) - 1)], parent=[('w2',)]))
         m.ocp.solver('ipopt')
         m.ocp.set_initial(m.w2, 2 * m.pb)        # a guess on the PARENT that is an expression of the parent's parameter (value 2.25)
+        bl_ = m.stage_builts[-1]
+        bl_.stage.set_initial(bl_.us[0], m.pb * (bl_.stage.t + 1))      # a guess on a SUB-STAGE written in the parent's parameter and the stage's time
     try:
         with quiet():
             m.ocp._transcribed
@@ -211,10 +213,23 @@ def run_stage_values(item):
         else:
             viol.append({'property': PROP, 'key': 'parent-value|%s|%s' % (method, tag), 'label': 'parent parameter',
                          'detail': 'the parent\'s parameter was last given the value %r, the NLP carries %r' % (want_pb, got)})
+    def substage_guess(tag, want_pb):
+        with quiet():
+            m.ocp._transcribed
+            st_ = m.stage_builts[-1].stage
+            us_ = [float(v_) for v_ in np.atleast_1d(st_.initial_value(st_.sample(m.stage_builts[-1].us[0], grid='control-')[1]))]
+            ts_ = [float(v_) for v_ in np.atleast_1d(st_.initial_value(st_.sample(st_.t, grid='control-')[1]))]
+        if all(close(u_, want_pb * (t_ + 1)) for u_, t_ in zip(us_, ts_)):
+            proved.append('%s: the sub-stage guess written in the parent parameter starts at value*(t+1)' % tag)
+        else:
+            viol.append({'property': PROP, 'key': 'substage-guess-of-parent-parameter|%s|%s' % (method, tag), 'label': 'stage.set_initial(u, pb*(t+1))',
+                         'detail': 'with the parent parameter at %r the control of the last stage starts at %s at the times %s (expected %s)' % (want_pb, us_, ts_, [want_pb * (t_ + 1) for t_ in ts_])})
+    substage_guess('value given before the transcription', 2.25)
     with quiet():
         m.ocp.set_value(m.pb, 3.5)
         m.ocp.set_initial(m.w, 0.25)
     parent_sees('set_value then set_initial on the parent, after the transcription', 3.5)
+    substage_guess('parent value changed after the transcription', 3.5)
     seen('clones untouched by the parent update')
     with quiet():
         m.ocp.subject_to(m.w <= 50)          # an edit: the next query transcribes again
